@@ -175,7 +175,7 @@ def task_mb(arg):
 def task_accept(spec):
     """Real Hamiltonian trials: threshold == exp(-(H' - H_fresh)/kT)."""
     depth = spec["depth"]
-    policy = Policy(normal_z=(-1.0, 1.0), product_limit=0, uniform_q=(0.3, 0.8), angular_q=None)
+    policy = Policy(normal_z=(-1.0, 0.6), product_limit=0, uniform_q=(0.3, 0.8), angular_q=None)
     counters = {"evaluations": 0, "nontrivial": 0, "executions": 0}
     viol, seen = [], {}
     st = Stats()
@@ -275,6 +275,9 @@ def run(tier, seed):
         dict(ens="HamiltonianCanonical", atoms="A2", table=[["h", "H"]], calc="harmonic", T=300.0, depth=d, check=True),
         dict(ens="HamiltonianCanonical", atoms="A3", table=[["h", "H1"], ["d", "D_ball"]], calc="quartic", T=500.0, depth=d, decos=["momenta"]),
         dict(ens="HamiltonianCanonical", atoms="A2", table=[["h", "H1"]], calc="pairsoft", T=200.0, depth=d + 1, check=True, late=["momenta"]),
+        # odd number of momentum components: the two joint menu answers have different kinetic energies
+        dict(ens="HamiltonianCanonical", atoms="A3", table=[["h", "H1"]], calc="harmonic", T=300.0, depth=d, check=True),
+        dict(ens="HamiltonianCanonical", atoms="A1", table=[["h", "H"]], calc="quartic", T=400.0, depth=d + 1, check=True, decos=["momenta"]),
     ]
     for r in pmap(__name__, "task_accept", specs):
         acc.add(r)
